@@ -42,6 +42,17 @@ class Ctx:
 class Color(enum.Enum):
     RED = 1
     BLUE = 2
+class _Hostile:
+    """hash / repr / == / bool raise something other than TypeError"""
+    def __hash__(self): raise ValueError("hash")
+    def __repr__(self): raise ValueError("repr")
+    def __eq__(self, other): raise ValueError("eq")
+    def __bool__(self): raise ValueError("bool")
+HOSTILE = _Hostile()
+@dataclass
+class DFn:
+    fn: str = "x"
+    name: int = 0
 '''
 
 LOCALS = ["a", "b", "c", "x", "y", "z"]
@@ -90,6 +101,8 @@ SAFE_ANN = [
 ]
 # only valid where annotations are NOT evaluated (function bodies, or module under `from __future__ import annotations`)
 LAZY_ANN = [
+    "NewType()", "NewType('Y', int, 3)", "TypeVar()", "typing.TypeVar()", "TypeVar('X', 1)", "ParamSpec()", "dict[str, list[TypeVar()]]",
+    "Literal()", "Optional()", "Callable()", "Annotated()", "list()", "Generic()",
     "Later", "list[Later]", "Later | None", "Optional[Later]", "undef1", "list[undef1]", "1", "(1, 2)", "[int]", "{'a': int}",
     "int()", "len", "lambda: int", "Optional[int, str]", "list[int][str]", "int[str]", "Literal[1 + 2]", "Literal[[1]]",
     "Literal[int]", "Literal[()]", "Literal[...]", "Annotated[int]", "Annotated", "Callable[int]", "Callable[[int]]",
@@ -149,6 +162,10 @@ ILL_STMTS = [
 ]
 
 ILL_EXPRS = [
+    "sys.version_info >= '3.8'", "(sys.version_info < 3)", "(sys.platform == 3)", "(sys.version_info[0] >= 'a')",
+    "range(10 ** 20)", "[*range(10 ** 20)]", "len(range(10 ** 20))", "list(range(10 ** 20))[:1]",
+    "HOSTILE", "{HOSTILE: 1}", "{HOSTILE}", "(HOSTILE == 1)", "(1 == HOSTILE)", "[HOSTILE, HOSTILE]", "(HOSTILE in (1, 2))", "(not HOSTILE)",
+    "DFn()", "DFn('a')", "DFn(fn='b', name=1)", "DFn().fn",
     "super().__nope", "range('a')", "(10 ** 5000).nope", "max(10 ** 5000, 'a')", "Meta", "[Meta, int][0]", "type(Meta)", "Meta('X', (), {})",
     "([] @ {})",
     "len()",
